@@ -58,7 +58,7 @@ macro_rules! prefix_parser {
             check!($label, sl.len() == want && rest.len() == $x.len() - want);
             check!("C14:returns-the-matched-slice-of-the-input", sl.as_ptr() == $x.as_ptr());
         }
-        cover!("cover:accept-longest", r.has_output() && want == $x.len() && want == 3);
+        cover!("cover:accept", r.has_output() && want >= 1);
         cover!("cover:reject", !r.has_output());
     }};
 }
